@@ -394,6 +394,16 @@ def deck():
     for bad_index in ("0", 1.0, None, [0]):
         cell("reorder/sec/index-not-an-integer", ["reorder", C, enc(bad_index)])
         cell("reorder/prop/index-not-an-integer", ["prop", "z", enc([1]), "int", A, {}], ["reorder", P, enc(bad_index)])
+    for bad_index in ("0", 1.0, None, [0]):
+        cell("insert/sec/index-not-an-integer", ["insert", B, enc(bad_index), C])
+        cell("insert/sec/index-not-an-integer-detached", ["insert", B, enc(bad_index), X])
+        cell("insert/doc/index-not-an-integer", ["insert", D, enc(bad_index), C])
+        cell("insert/sec/prop-index-not-an-integer", ["insert", B, enc(bad_index), P])
+    cell("setitem/sections/by-object", ["setitem", D, "sections", {"$obj": B}, X])
+    cell("setitem/sections/by-object-attached-elsewhere", ["setitem", D, "sections", {"$obj": B}, C])
+    cell("setitem/sections/by-object-not-a-child", ["setitem", D, "sections", {"$obj": C}, X])
+    cell("setitem/properties/by-object", ["setitem", A, "properties", {"$obj": P}, Q])
+    cell("setitem/sections/index-not-an-integer", ["setitem", D, "sections", enc(1.0), X])
     cell("setitem/sections/by-name", ["setitem", D, "sections", "b", X])
     cell("setitem/sections/by-name-missing", ["setitem", D, "sections", "nope", X])
     cell("setitem/sections/by-name-clash", ["sec", "a", "t2", None, {}], ["setitem", D, "sections", "b", 14])
